@@ -359,6 +359,8 @@ def run(chk, ctx) -> None:
     _loop_membership(chk, ctx, disc)
     _applies_to(chk, ctx, disc)
     _none_default(chk, ctx)
+    from .cover import flag_verifiers
+    flag_verifiers(chk, ctx)
 
 
 PLAYER_QUEUES = ('actor_indices', 'showdown_indices')
